@@ -48,6 +48,13 @@ func zzSeed(ndeleg int, withFrozen bool) *zzWorld {
 			_ = d.AddStake(NewStakeWithPower(zzAddr(2), zzAddr(i), p2, 1, r2.hash))
 			w.stakes = append(w.stakes, r2)
 		}
+		if zzverif.Thorough() && zzverif.Choose("delegated2", 2) == 1 {
+			// thorough tier: a third stake (delegated by the other validator's owner)
+			p3 := zzPower("delegpower2")
+			r3 := &zzStakeRec{hash: zzHash(20 + i), from: 1 - i, to: i, power: p3, live: true}
+			_ = d.AddStake(NewStakeWithPower(zzAddr(1-i), zzAddr(i), p3, 1, r3.hash))
+			w.stakes = append(w.stakes, r3)
+		}
 		_ = w.sc.delegateeLedger.SetFinality(d)
 	}
 	if withFrozen && zzverif.Choose("frozen", 2) == 1 {
@@ -103,11 +110,9 @@ func (w *zzWorld) checkInvariant(tag string, committed bool) {
 				self += s.Power
 			}
 			zzverif.Assert(bytes.Compare(s.To, d.Addr) == 0, tag+": bonded stake's target is its delegatee")
-			zzverif.Assert(s.Power > 0, tag+": bonded stake has positive power")
 		}
 		zzverif.Assert(d.TotalPower == sum, tag+": TotalPower == sum of bonded stakes")
 		zzverif.Assert(d.SelfPower == self, tag+": SelfPower == sum of the owner's own stakes")
-		zzverif.Assert(len(d.Stakes) > 0, tag+": a stored delegatee has at least one stake")
 	}
 	for _, r := range w.stakes {
 		places := 0
